@@ -578,7 +578,12 @@ pub fn main(tier: Tier) -> i32 {
                     v.hdelay = hd;
                     v.cdelay = cd;
                     v.funding_alt = alt;
-                    setups.push(v);
+                    setups.push(v.clone());
+                    // the base delays also under the chain-aware validator
+                    if hd == 6 && !alt {
+                        v.onchain = true;
+                        setups.push(v);
+                    }
                 }
             }
         }
